@@ -10,6 +10,7 @@
      statements of parse() that touch _vm, equals "command line > file (alias == primary) >
      default" in all four source combinations;
  R4  options accepted only for compatibility bind fields whose getters main never calls;
+ R8  no numeric option has a character value type (boost would take the first character of the argument, not the number);
  R7  the bound value reaches its user unchanged: no getter and no first use in main converts it floating->integral, to a
      narrower or differently signed integer (or, in a getter, double->float);
  R5  command-line and config-file declarations of one option agree in field and type; no
@@ -305,6 +306,20 @@ def run(chk, prog):
             chk.check(not bad, "R7", A.loc(mainf, x), "main uses the value of %s() without a value-changing conversion%s" % (x["callee"].split("::")[-1], "" if not bad else " (%s)" % bad),
                       "main:%s:converts:%s" % (x["callee"].split("::")[-1], ["%s:%s->%s" % b_ for b_ in bad]))
     chk.floor("R7-getter-uses", n7, 90)
+
+    # ---- R8: numeric options are parsed as numbers --------------------------------------------------------------------------------------
+    # boost::program_options converts with lexical_cast: a value type of character kind (char, signed/unsigned char = uint_fast8_t, int8_t)
+    # takes the first character of the argument instead of parsing a number -- '3' becomes 51, 'x' is accepted without a message
+    CHARLIKE = {"char", "unsigned char", "signed char", "wchar_t", "char16_t", "char32_t"}
+    n8 = 0
+    for name, o in sorted({**cli, **cfg}.items()):
+        if o.vtype is None:
+            continue
+        n8 += 1
+        vt = (o.vtype or "").replace("const ", "").strip()
+        chk.check(vt not in CHARLIKE, "R8", "src/IO/ProgramOptions.cpp:%d" % o.line,
+                  "option '%s' has a value type boost parses as a number or a string (%s)" % (name, vt), "options:%s:character-type:%s" % (name, vt))
+    chk.floor("R8-options", n8, 50)
 
     # ---- R6 error discipline ---------------------------------------------------------------------------------
     idx = A.index(mainf)
